@@ -9,7 +9,7 @@ RULE = ("sessions against 0-4 scripted Keep services (per-request answers drawn 
         "last data, optionally failing Close, delivered in pieces of 1..1000 bytes) over 1-6 planted blocks "
         "(locators with consistent, missing, wrong, oversized or negative size hints, extra hints, the empty "
         "block, two locators sharing one hash), Retries 0-3, BlockCache MaxBlocks 0-3; ops: Get + ReadAll / "
-        "WriteTo / ReadFull(m)+Close, Ask, ReadAt at many offsets, File.Read/Seek over a one-file manifest; "
+        "WriteTo / ReadFull(m)+Close, Ask, ReadAt at many offsets, File.Read/Seek over a one-file manifest; multi-stream multi-file collections (1-3 streams, files sharing blocks, tokens straddling block boundaries, several handles via CollectionFileReader); "
         "re-read sessions (every first answer is a wrong 200, then the same block is read again through the same cache); concurrent schedules (2-4 readers, 1-2 blocks, every fetch request blocked and released in scripted "
         "order); storedSegment.ReadAt with arbitrary offset/length/off/len. Non-trivial = at least one HTTP "
         "request was made (or, for seg, the backend was called); distinct = distinct case line")
@@ -284,6 +284,67 @@ def _gen_sess(rng, want_file=False, sweepy=False):
     return f"sess {retries} {maxb} {','.join(uuids) or '-'} {'|'.join(blocks)} {toks} {','.join(ops) or '-'}"
 
 
+def _gen_multifile(rng):
+    """Collection with 1-3 streams (".", "./a", "./a/b", "./c"), 2-5 blocks (a block may occur in several
+    streams or twice in one), 1-4 file tokens per stream over files f,g,h (several tokens per file, files
+    sharing blocks, zero-length tokens, tokens straddling block boundaries); several handles opened through
+    CollectionFileReader; reads of many sizes (straddling segment ends) and seeks, on a faulty Keep."""
+    nsvc = rng.randint(1, 3)
+    uuids = _uuids(rng, nsvc)
+    retries = rng.choice([0, 0, 1])
+    nblk = rng.randint(2, 5)
+    used, blocks, plants = set(), [], []
+    p_good = rng.choice([0.5, 0.7, 0.9])
+    for _ in range(nblk):
+        s_, b, loc, hint = _block(rng, nsvc, uuids, retries, used, consistent_only=rng.random() < 0.97, p_good=p_good)
+        blocks.append(s_)
+        plants.append((b, loc, hint))
+    dirs = rng.sample([".", "./a", "./a/b", "./c"], rng.randint(1, 3))
+    streams, paths = [], []
+    for d in dirs:
+        idxs = [rng.randrange(nblk) for _ in range(rng.randint(1, 3))]
+        sizes = [plants[i][2] if (plants[i][2] is not None and plants[i][2] < 2 ** 31) else 0 for i in idxs]
+        total = sum(sizes)
+        bounds = [sum(sizes[:k]) for k in range(len(sizes) + 1)]
+        toks = []
+        for _ in range(rng.randint(1, 4)):
+            name = rng.choice("fgh")
+            r = rng.random()
+            if r < 0.007:
+                off, ln = rng.randint(0, total + 3), rng.randint(1, total + 3)
+            elif r < 0.45 and len(bounds) > 2:
+                # straddle a block boundary
+                bd = rng.choice(bounds[1:-1])
+                off = max(0, bd - rng.randint(0, 3))
+                ln = min(total - off, rng.randint(1, 8))
+            elif r < 0.55:
+                off, ln = rng.randint(0, total), 0
+            else:
+                off = rng.randint(0, total)
+                ln = rng.randint(0, total - off)
+            toks.append(f"{off}:{ln}:{name}")
+            pth = name if d == "." else d[2:] + "/" + name
+            if pth not in paths:
+                paths.append(pth)
+        streams.append(f"{d}={'.'.join(map(str, idxs))}={','.join(toks)}")
+    ops, nh = [], 0
+    for _ in range(rng.randint(1, 3)):
+        ops.append("o" + (rng.choice(paths) if rng.random() < 0.94 else rng.choice(["zz", "a/zz", "c/zz"])))
+        nh += 1
+    for _ in range(rng.randint(3, 14)):
+        h = rng.randrange(nh)
+        r = rng.random()
+        if r < 0.2:
+            ops.append(f"k{h}:{rng.choice([0, 1, 2, 5, 8, 13, 20, 40, 200])}")
+        elif r < 0.27 and nh < 4:
+            ops.append("o" + rng.choice(paths))
+            nh += 1
+        else:
+            ops.append(f"r{h}:{rng.choice([0, 1, 1, 2, 3, 5, 8, 16, 64, 300])}")
+    return (f"sess {retries} {rng.choice([0, 0, 1, 2])} {','.join(uuids)} {'|'.join(blocks)} "
+            f"{';'.join(streams)} {','.join(ops)}")
+
+
 def _resp_abort(rng, b):
     """wrong bytes of at least the block's size, then a transport error at the end of the body or a failing Close"""
     for _ in range(20):
@@ -423,6 +484,8 @@ def generate(rng, tier):
         cases.append(_gen_seg(rng))
     for _ in range(200 * scale):
         cases.append(_gen_reread(rng))
+    for _ in range(300 * scale):
+        cases.append(_gen_multifile(rng))
     for _ in range(4):
         cases.append(_gen_crashy(rng))
     return cases
@@ -544,17 +607,38 @@ def oracle(case, impl):
     outs = [o.rsplit("@", 1)[0] for o in outs]
     log = impl.split(" log=")[1] if " log=" in impl else "-"
     log = [] if log == "-" else [tuple(int(x) for x in e.split(".")) for e in log.split(",")]
-    why = _wrongly_sized(blocks, ops, outs, counts, log)
+    why = _wrongly_sized(blocks, ops, outs, counts, log, nsvc=0 if f[3] == "-" else len(f[3].split(",")))
     if why:
         return why
-    # expected file content (only when every locator is consistent with its planted block)
-    filedata = None
+    # expected file contents (only when every locator is consistent with its planted block), computed
+    # independently from the manifest format: stream = concatenation of its blocks, token = byte range
+    files = None
     if f[5] != "-" and all(_consistent(b) for b in blocks):
-        toks = [tuple(int(x) for x in t.split(":")) for t in f[5].split(",")]
-        sizes = [len(b["planted"]) for b in blocks]
-        if all(o + l <= sum(sizes) for o, l in toks):
-            filedata = b"".join(blocks[i]["planted"][o:o + l] for i, o, l in _segments(sizes, toks))
-    pos = 0
+        files = {}
+        if "=" in f[5]:
+            for st in f[5].split(";"):
+                d, bs, ts = st.split("=")
+                idxs = [int(x) for x in bs.split(".")]
+                stream = b"".join(blocks[i]["planted"] for i in idxs)
+                for t in ts.split(","):
+                    o_, l_, name = t.split(":")
+                    o_, l_ = int(o_), int(l_)
+                    if o_ + l_ > len(stream):
+                        files = None
+                        break
+                    pth = name if d == "." else d[2:] + "/" + name
+                    files[pth] = files.get(pth, b"") + stream[o_:o_ + l_]
+                if files is None:
+                    break
+        else:
+            toks = [tuple(int(x) for x in t.split(":")) for t in f[5].split(",")]
+            sizes = [len(b["planted"]) for b in blocks]
+            if all(o + l <= sum(sizes) for o, l in toks):
+                files["f"] = b"".join(blocks[i]["planted"][o:o + l] for i, o, l in _segments(sizes, toks))
+            else:
+                files = None
+    # handles: [path or None, position]
+    handles = [["f", 0]] if (f[5] != "-" and "=" not in f[5]) else []
     for op, o in zip(ops, outs):
         p = o.split(":")
         if op[0] == "G":
@@ -588,23 +672,35 @@ def oracle(case, impl):
                     return why
             elif n:
                 return "ReadAt returned data together with an error"
+        elif op[0] == "o":
+            handles.append([op[1:] if p[1] == "ok" else None, 0])
+            if files is not None and p[1] == "ok" and op[1:] not in files:
+                return f"opened a file {op[1:]} that the manifest does not contain"
         elif op[0] == "r":
             if p[1] == "noopen":
                 continue
+            a = op[1:].split(":")
+            h, want = (int(a[0]), int(a[1])) if len(a) == 2 else (0, int(a[0]))
+            if h >= len(handles) or handles[h][0] is None:
+                return "read on a handle that was never opened"
             data, cls = bytes.fromhex(p[1]), p[2]
+            filedata = files.get(handles[h][0]) if files is not None else None
+            pos = handles[h][1]
             if filedata is not None and data:
                 if data != filedata[pos:pos + len(data)]:
-                    return f"File.Read at {pos} returned {data.hex()} but the file has {filedata[pos:pos + len(data)].hex()} there"
+                    return (f"File.Read of {handles[h][0]} at {pos} returned {data.hex()} but the file has "
+                            f"{filedata[pos:pos + len(data)].hex()} there")
             if filedata is not None and cls == "ok":
-                want = min(int(op[1:]), 1 << 30)
                 if len(data) == 0 and want > 0 and pos < len(filedata):
                     return "File.Read returned no data and no error before the end of the file"
             if filedata is not None and cls == "eof" and pos + len(data) < len(filedata):
                 return "File.Read reported EOF before the end of the file"
-            pos += len(data)
+            handles[h][1] = pos + len(data)
         elif op[0] == "k":
-            if p[1].isdigit():
-                pos = int(p[1])
+            a = op[1:].split(":")
+            h = int(a[0]) if len(a) == 2 else 0
+            if p[1].isdigit() and h < len(handles):
+                handles[h][1] = int(p[1])
     return None
 
 
@@ -613,7 +709,10 @@ def _answers(blocks):
     return [[(sv.split(",") if sv else []) for sv in b["script"].split(";")] for b in blocks]
 
 
-def _wrongly_sized(blocks, ops, outs, counts, log):
+FETCH_ERRS = ("badsum", "proto", "temp", "perm", "notfound", "closefail")
+
+
+def _wrongly_sized(blocks, ops, outs, counts, log, nsvc=1):
     """'If a Keep server answers with ... wrongly sized data, the read ends with an error': a read that
     succeeds right after a request whose answer declared a Content-Length different from the size in the
     locator was satisfied by wrongly sized data. Which scripted answer a request received follows from the
@@ -631,9 +730,14 @@ def _wrongly_sized(blocks, ops, outs, counts, log):
     prev = 0
     for op, o, c in zip(ops, outs, counts):
         seg, prev = answers[prev:c], c
+        p = o.split(":")
+        if not seg and nsvc > 0 and op[0] in "Rr" and p[-1] in FETCH_ERRS:
+            # '... and the bad response is not kept in the block cache to satisfy later reads': a cached read
+            # that reports a fetch error without having asked any service was answered from a kept failure
+            return (f"op {op} returned the fetch error '{p[-1]}' without asking any Keep service: "
+                    "a failed response was kept in the block cache and answered a later read")
         if not seg or op[0] not in "GRr":
             continue
-        p = o.split(":")
         if op[0] == "G":
             if len(p) != 5:
                 continue
